@@ -155,6 +155,24 @@ func genBusyWindow(r *Rng, cfg *Config, lsW []int) []Op {
 	return []Op{appOp(hold), op, appOp(Step{K: "hold_commit"})}
 }
 
+// genIdleRetention: everything is compacted, the application goes idle for
+// longer than the level-0 retention and the retention check fires more than once
+// with no new file in between; then the application writes again.
+func genIdleRetention(r *Rng, cfg *Config) []Op {
+	if len(cfg.LevelMs) == 0 || cfg.L0RetentionMs > 20000 {
+		return nil
+	}
+	ops := []Op{{Kind: "ls_sync_wait"}, {Kind: "sleep", Ms: cfg.LevelMs[0] + 500}, {Kind: "ls_compact", Level: 1}}
+	for i := 0; i < r.Range(2, 3); i++ {
+		ops = append(ops, Op{Kind: "sleep", Ms: cfg.L0RetentionMs + 1000}, Op{Kind: "ls_l0_retention"})
+	}
+	ops = append(ops, appOp(genTxn(r, cfg)), Op{Kind: "ls_sync_wait"})
+	if r.Chance(0.5) {
+		ops = append(ops, appOp(genTxn(r, cfg)), Op{Kind: "ls_sync_wait"})
+	}
+	return ops
+}
+
 // genSnapshotWindow: a snapshot stream is open (litestream skips its own
 // checkpoints) while transactions arrive and rounds are acknowledged.
 func genSnapshotWindow(r *Rng, cfg *Config, lsW []int) []Op {
